@@ -1,5 +1,5 @@
 """C03 — results independent of atom labelling and internal qubit reordering."""
-from ..rules import perm, tagkey
+from ..rules import config, perm, tagkey
 
 META = {
     "title": "Results are independent of atom labelling and internal qubit reordering",
@@ -27,4 +27,5 @@ def check(ctx):
     perm.check_entry_points(ctx, ["run", "resume", "_run_from_sequence_data"])
     perm.check_permute_results_body(ctx)
     tagkey.check(ctx)
+    config.helpers_gather(ctx)   # PERM's transfer functions assume gather-type helpers
     ctx.floor("PERM-sink", 9)
